@@ -1,8 +1,9 @@
 package c07
 
 // Oracle (c) "any byte change to a stored key ring is detected when it is read" (fault enumeration: every byte of
-// every stored v2 key ring, one bit per byte in the quick tier and all eight in the thorough tier), and its v1
-// counterpart "a flipped private/symmetric key file fails to load".
+// every stored v2 key ring, one bit per byte in the quick tier and all eight in the thorough tier; plus, at every
+// offset, the byte VALUES that matter to a DER reader (quick) / all 255 other values (thorough): runByteValuesV2,
+// der.go), and its v1 counterpart "a flipped private/symmetric key file fails to load".
 
 import (
 	"bytes"
@@ -320,7 +321,7 @@ func runByteValuesV2(r *ev.Run, cfg config, g *rig, slots []slot, content map[st
 		if si < 2 {
 			r.SampleN(fmt.Sprintf("c-bytes/%s/%v", cfg.name, realFiles), 2, map[string]interface{}{"oracle": "c (byte values)", "config": cfg.name, "real_files": realFiles, "ring": s.path + ".keyring",
 				"file_len": len(orig), "tier_values": map[bool]string{false: "value-1, value+1, value/2, 0x10..0x1f for 0x20, 0, 0x7f, 0x80, 0x81, 0xff", true: "all 255 other values"}[allValues],
-				"bytes_per_der_field": fieldBytes,
+				"bytes_per_der_field":         fieldBytes,
 				"signature_value_length_byte": map[string]interface{}{"offset": sigLenOff, "original": "0x20", "first_values_tried": sigLenTried, "rejected": sigLenRejected}})
 		}
 	}
